@@ -80,6 +80,15 @@ def random_case(rng, max_states=5, max_syms=3, kinds=("enfa", "nfa", "dfa"), vcs
                 edits.append(["add_t", rng.randrange(max(n, 1)), rng.randrange(k), rng.randrange(max(n, 1))])
             else:
                 edits.append(["add_f", rng.randrange(max(n, 1))])
+        if rng.random() < 0.3 and n >= 1:
+            # an edit that keeps every count (states, transitions, final states): one transition moved, or the
+            # final marking moved to another state
+            if rng.random() < 0.7 or not case["final"]:
+                t = rng.choice(case["trans"])
+                edits = [["rm_t"] + list(t), ["add_t", rng.randrange(n), t[1] if t[1] != EPSID or kind == "enfa" else 0,
+                                              rng.randrange(n)]]
+            else:
+                edits = [["rm_f", rng.choice(case["final"])], ["add_f", rng.randrange(n)]]
         case["edits"] = edits
     r = rng.random()
     if r < 0.15:
